@@ -230,7 +230,7 @@ def part_b(ctx):
             if ctx.mine(i):
                 ctx.count("catalogue_graphs_explored")
                 yield spec
-        yield from graph_specs(rng, ctx.n(300, 8000), ctx.tier == "thorough")
+        yield from graph_specs(rng, ctx.n(300, 5000), ctx.tier == "thorough")
     for spec in all_specs():
         ctx.count("synthetic_graphs_explored")
         case = {"kind": "graph", "spec": spec}
@@ -280,15 +280,15 @@ def run_shard(ctx):
     from ..mon import loop
     loop.selftest()
     base = ctx.seed * 17_000_023 + ctx.shard * 1_000_133
-    for k in range(ctx.n(1000, 15000)):
+    for k in range(ctx.n(1000, 8000)):
         c04.check_request(ctx, base + k, k, protocol=True, merge=False)
     # the stream clause ("in list order, without gaps or repeats") gets its own share: the stream template family only
-    for k in range(ctx.n(600, 9000)):
+    for k in range(ctx.n(600, 4000)):
         ctx.count("stream_family_requests")
         c04.check_request(ctx, (base + k) * 11 + 6, k + 1, protocol=True, merge=False)
     # ... and so do the defer template families (list-nested, overlapping, split, shared-fragment): wrong parent links
     # between fragments show as protocol violations only under particular completion orders
-    for k in range(ctx.n(500, 7500)):
+    for k in range(ctx.n(500, 3500)):
         ctx.count("defer_family_requests")
         c04.check_request(ctx, (base + k) * 11 + (7, 7, 9, 10, 5)[k % 5], k + 1, protocol=True, merge=False)
     part_b(ctx)
